@@ -133,12 +133,15 @@ Section Steps.
     let acks := if ack (fc f) then Do (SUpdateAckTime (fcnt f) now) (fun _ => after_ack) else Do SResetAcks (fun _ => after_ack) in
     if mtype f =? ConfirmedDataUp then Do (SSetAckFlag true) (fun _ => acks) else acks.
 
-  (* the uplink handler for the device whose key verified the MIC *)
+  (* the uplink handler of one device: row read, MIC under the row's key, then the pipeline *)
   Definition uplink_prog (f : frame) (rx : rxpacket) (nmatch : nat) (now : N) : prog :=
     Do SGetRow (fun r =>
     match r with
     | XRow (Some dev) =>
-      if stale dev f then Halt []
+      (* the MIC is verified under the key of the row as read (verifyAndDecryptMessage): a frame of a session the
+         device has left meanwhile goes no further *)
+      if negb (mic_ok E f (rx_raw rx) dev) then Halt []
+      else if stale dev f then Halt []
       else
         let kw := if (1 <? nmatch)%nat then true else d_keywarn dev in
         let body (dev1 : device) : prog :=
